@@ -28,7 +28,7 @@ ASSUMPTIONS = ["torch.Generator/np.random.SeedSequence are deterministic functio
 REAL_VS_STUB = {"real": ["torchsde.BrownianInterval/BrownianPath/BrownianTree/ReverseBrownian", "trampoline",
                          "numpy SeedSequence", "torch kernels", "sdeint_adjoint (mode adjoint)"],
                 "stub": ["value cache wrapped by FaultyCache (forwarding)", "np.random.randint (entropy seam)"]}
-PROBES = ("sibling_object", "repeat_compared", "repeat_after_fault", "repeat_after_refinement", "repeat_other_flags",
+PROBES = ("misc_ops", "sibling_object", "repeat_compared", "repeat_after_fault", "repeat_after_refinement", "repeat_other_flags",
           "tiny_cache", "reverse_wrapper", "adjoint_backward_requery")
 STATE_MEASURE = "distinct final interval-tree shapes (hash of display_binary_tree dump)"
 
@@ -123,7 +123,8 @@ def run_case(case, keep_log=False):
     refinements = 0
     try:
         for i, op in enumerate(case["ops"]):
-            if bm.apply_env(op):
+            if bm.apply_env(op, ex):
+                probes["misc_ops"] += int(op["op"] == "misc")
                 continue
             if op["op"] == "sib":
                 if sib is None:
